@@ -5,8 +5,8 @@ Model: `SFV/Model/CwlCmd.lean` (StreamFlow's `bind` / `_merge_tokens` / `_get_ex
 standard's binding algorithm) and `SFV/Model/CwlCmdSh.lean` (`shlex.quote`, word splitting of `/bin/sh`).
 Proved: on the modelled fragment both algorithms produce the same command-line elements in the same order with
 the same quoting flags, hence the same command string; every quoted element reaches the tool verbatim
-(`quote_roundtrip`). Environment values rendered as `export K="v"` are verbatim only without `$`, backquote,
-backslash and double quote (`env_eq_spec_partial`, witness `env_eq_spec_false`). Float formatting, JavaScript
+(`quote_roundtrip`). Environment values are rendered as `export K=<shlex.quote(v)>` since fix 1a0529c and reach the
+tool verbatim for every value (`env_eq_spec`). Float formatting, JavaScript
 `valueFrom`, records, file staging and the real shell are validated differentially by the check. -/
 namespace SFV.C30
 open SFV.CwlCmd
@@ -117,10 +117,25 @@ theorem argv_verbatim (ps : List Param) (ho : ArgsInOrder ps) (hi : ∀ p, p ∈
 theorem shellquote_false_is_raw (e : Elem) (h : e.quoted = false) : renderElems [e] = e.text.toList := by
   simp [renderElems, joinSp, h]
 
-/-- `export K="v"`: values without `$`, backquote, backslash and double quote reach the tool verbatim -/
-theorem env_eq_spec_partial (v : List Char) (h : ∀ c, c ∈ v → dqActive c = false) :
-    parseCmd .unq (envRender v) [] [] = some [v] := by
-  show parseCmd .unq (dqRender v) [] [] = some [v]
+/-- **Environment values reach the tool verbatim** (full strength since fix 1a0529c: `create_command` renders
+`export K=<shlex.quote(v)>`): for every value — `$`, backquotes, quotes, backslashes, whitespace, empty — the shell
+assigns exactly `v` -/
+theorem env_eq_spec (v : List Char) : parseCmd .unq (envRender v) [] [] = some [v] := by
+  show parseCmd .unq (shlexQuote v) [] [] = some [v]
+  have := parse_quoted v [] [] []
+  simp only [List.append_nil] at this
+  rw [this]
+  simp [parseCmd]
+
+/-- regression guard, about the OLD rendering `export K="v"` (false before fix 1a0529c, DESIGN §6 #5): between double
+quotes the value `$HOME \`id\`` is expanded / executed by the shell instead of being passed verbatim -/
+theorem env_dq_render_false_before_fix :
+    parseCmd .unq (dqRender "$HOME `id`".toList) [] [] ≠ some ["$HOME `id`".toList] := by
+  decide
+
+/-- the old rendering was verbatim only for values without `$`, backquote, backslash and double quote -/
+theorem env_dq_render_partial_before_fix (v : List Char) (h : ∀ c, c ∈ v → dqActive c = false) :
+    parseCmd .unq (dqRender v) [] [] = some [v] := by
   unfold dqRender
   have h1 : ¬ ('"' = ' ') := by decide
   have h2 : ¬ ('"' = '\'') := by decide
@@ -128,15 +143,9 @@ theorem env_eq_spec_partial (v : List Char) (h : ∀ c, c ∈ v → dqActive c =
   rw [parse_dq_plain v [] [] [] h]
   simp [parseCmd]
 
-/-- the full environment statement is **false of the code** (DESIGN §6 #5): the EnvVarRequirement value
-`$HOME \`id\`` between double quotes is expanded / executed by the shell instead of being passed verbatim -/
-theorem env_eq_spec_false :
-    parseCmd .unq (envRender "$HOME `id`".toList) [] [] ≠ some ["$HOME `id`".toList] := by
-  decide
-
-/-- the extractor found the sort key and the `export K="v"` template the model assumes -/
+/-- the extractor found the sort key and the `export K=<shlex.quote(v)>` template the model assumes -/
 theorem templates_as_modelled :
-    Gen.CwlCmdTpl.envQuote = .dq ∧ Gen.CwlCmdTpl.sortKeyPositionThenName = true := by decide
+    Gen.CwlCmdTpl.envQuote = .shlex ∧ Gen.CwlCmdTpl.sortKeyPositionThenName = true := by decide
 
 /-! ### non-vacuity -/
 example : ArgsInOrder [{ name := none, index := 0, bind := some {}, itemBind := none, value := .str "x" },
